@@ -56,7 +56,22 @@ def die_parts(d):
     return W, H, boxes, fixed, flat
 
 
+def refine_safe(W, H, allb):
+    """split_refinable_regions halves a rectangle until its aspect ratio is small: on a sliver (a cell 2^-20 wide
+    of a non-robust die) that is millions of rectangles.  Refinement is asked for only when no cell of the grid of
+    cut coordinates is more than 64 times longer than wide."""
+    g = grid_index(W, H, allb)
+    if g is None:
+        return False
+    xs, ys, _ = g
+    dx = [b - a for a, b in zip(xs, xs[1:])]
+    dy = [b - a for a, b in zip(ys, ys[1:])]
+    return max(dx + dy) <= 64 * min(dx + dy) and len(dx) * len(dy) <= 64
+
+
 def die_design(W, H, boxes, fixed, variant="robust", flat=False, refine=None):
+    if refine and not refine_safe(W, H, [b[:4] for b in boxes] + [b[:4] for b in fixed]):
+        refine = None
     doc = {"width": fl(W), "height": fl(H)}
     regs = [[fl(b[0]), fl(b[1]), fl(b[2]), fl(b[3]), b[4]] for b in boxes]
     if regs:
